@@ -61,6 +61,8 @@ pub enum ParseError {
     ExpectedVariable(Location),
     #[error("Expected unscoped variable at {0}")]
     ExpectedUnscopedVariable(Location),
+    #[error("Invalid integer constant {0} at {1}")]
+    InvalidIntegerConstant(String, Location),
     #[error("Invalid regular expression /{0}/ at {1}")]
     InvalidRegex(String, Location),
     #[error("Expected integer constant in regex capture at {0}")]
@@ -108,6 +110,7 @@ impl std::fmt::Display for DisplayParseErrorPretty<'_> {
             ParseError::ExpectedToken(_, location) => *location,
             ParseError::ExpectedVariable(location) => *location,
             ParseError::ExpectedUnscopedVariable(location) => *location,
+            ParseError::InvalidIntegerConstant(_, location) => *location,
             ParseError::InvalidRegex(_, location) => *location,
             ParseError::InvalidRegexCapture(location) => *location,
             ParseError::QueryError(err) => Location {
@@ -941,10 +944,13 @@ impl<'a> Parser<'a> {
 
     fn parse_integer_constant(&mut self) -> Result<ast::Expression, ParseError> {
         // We'll have already verified that the next digit is an integer.
+        let location = self.location;
         let start = self.offset;
         self.consume_while(|ch| ch.is_ascii_digit());
         let end = self.offset;
-        let value = u32::from_str_radix(&self.source[start..end], 10).unwrap();
+        let value = u32::from_str_radix(&self.source[start..end], 10).map_err(|_| {
+            ParseError::InvalidIntegerConstant(self.source[start..end].to_string(), location)
+        })?;
         Ok(ast::IntegerConstant { value }.into())
     }
 
@@ -975,7 +981,8 @@ impl<'a> Parser<'a> {
         if start == end {
             return Err(ParseError::InvalidRegexCapture(regex_capture_location));
         }
-        let match_index = usize::from_str_radix(&self.source[start..end], 10).unwrap();
+        let match_index = usize::from_str_radix(&self.source[start..end], 10)
+            .map_err(|_| ParseError::InvalidRegexCapture(regex_capture_location))?;
         Ok(ast::RegexCapture { match_index }.into())
     }
 
